@@ -14,15 +14,16 @@ LEVEL_NOTE = ("Trusted: Lean 4.33 kernel (axioms per theorem are audited on ever
 # property -> (engine, technique, text)
 CLAIMED = {
     "C01": ("text", "Lean 4 proof over hand-written reader/emitter model (document-level round trip for flat documents; lexer/emitter lemmas for the rest) + differential correspondence + failing-input search",
-            "Theorems (all inputs of the class): for every FLAT document (envelope, any number of KEY::scalar lines with quoted strings of any characters, bare words, booleans, null) the canonical "
-            "text is accepted by the strict reader, which returns the same document, and canonicalising it again gives the same bytes (C01_flat_canonical_is_readable, C01_flat_fixed_point); "
-            "one fixed-point step is stable; emit ignores positions. PARTIAL: for documents with blocks, sections, lists, comments, META, zones the document-level statement is an open proof target "
-            "(blocks in progress) and is backed by the tie only: regenerated lexer/emitter/parser tables pinned by decide facts; exact correspondence (canonical text, strict verdict) of the full "
+            "Theorems (all inputs of the class): for every document made of an envelope and a forest of KEY::scalar lines and ARBITRARILY NESTED BLOCKS (scalars: quoted strings of any characters, bare words, "
+            "booleans, null, integers) the canonical text is accepted by the strict reader, which returns the same document, and canonicalising it again gives the same bytes (C01_tree_canonical_is_readable, "
+            "C01_tree_fixed_point; flat documents: C01_flat_fixed_point); "
+            "one fixed-point step is stable; emit ignores positions. PARTIAL: for documents with sections, lists, comments, META, zones, expressions the document-level statement is an open proof target "
+            "(all in progress) and is backed by the tie only: regenerated lexer/emitter/parser tables pinned by decide facts; exact correspondence (canonical text, strict verdict) of the full "
             "lexer+parser+emitter transcription on generated documents, the shipped corpus, exhaustive token sequences and mutations; oracle on the real code incl. tools."),
     "C02": ("text", "Lean 4 proof (content preservation for flat documents; reader value typing; list values at parser level) + content-model oracle + AST correspondence",
-            "Theorems: reading the canonical text of every flat document yields exactly its name, keys in order and values with their types, nothing else (C02_flat_content_preserved, strict and "
-            "lenient entry points, exact parser warnings); parseValue on (nested) list tokens of any length returns exactly the list (C02_nested_list_typed); STRING/NUMBER/BOOLEAN/NULL tokens are read back "
-            "as str/int/float/bool/null for every state and continuation. PARTIAL: nested blocks/sections, comments, META, zones at document level are backed by the content oracle (content known "
+            "Theorems: reading the canonical text of every document made of lines and arbitrarily nested blocks yields exactly its name, keys, nesting, order and values with their types, nothing else "
+            "(C02_tree_content_preserved, C02_flat_content_preserved; strict and lenient entry points, exact parser warnings); parseValue on (nested) list tokens of any length returns exactly the list (C02_nested_list_typed); STRING/NUMBER/BOOLEAN/NULL tokens are read back "
+            "as str/int/float/bool/null for every state and continuation. PARTIAL: sections, comments, META, zones, lists inside documents are backed by the content oracle (content known "
             "independently of any parser, covering matrix value kind x position) and the correspondence on full ASTs with positions."),
     "C03": ("text", "Lean 4 proof (convergence of every whitespace/quote spelling of flat documents; emitter is a function of content; alias table; indentation; final newline) + convergence search",
             "Theorems: every lenient spelling of a flat document — spaces around ::, leading indentation, trailing spaces, blank and whitespace-only lines, quotes around plain words, triple quotes, "
